@@ -238,6 +238,13 @@ def run_file(spec, res, d, h, f, ioapi):
             f = g
             res.facet('source:disk')
     before = snapshot.snap_file(f)
+    if any(np.dtype(vs.dtype).kind not in 'fiub' and
+           any(d_ in vs.dims for d_, _ in spec['apply'])
+           for vs in before.vars.values()):
+        # a text variable lies along a named dimension: numeric functions
+        # are not defined for it (outside the domain of the call)
+        res.note('out-of-domain:text-variable-along-dimension')
+        return
     fnmap = {d: fn for d, fn in spec['apply']}
     facets = ['fn:' + fn for fn in fnmap.values()] + [
         'ndims:%d' % len(fnmap), 'ioapi' if ioapi else 'core']
@@ -478,6 +485,12 @@ def run_file(spec, res, d, h, f, ioapi):
                 problems.append('%s: keyword order changes the shape' % name)
                 continue
             dt = np.dtype(va.dtype)
+            if dt.kind not in 'fiu':
+                # (text, booleans: untouched by the call, compared exactly)
+                d = snapshot.check_var(vb, name, data=va.data, mask=va.mask)
+                if d:
+                    problems.append('keyword order matters: ' + d[0])
+                continue
             rt = None if dt.kind in 'iu' else 256 * np.finfo(dt).eps
             d = snapshot.check_var(vb, name, data=va.data, mask=va.mask,
                                    rtol=rt, atol=0.0 if rt is None else
